@@ -48,3 +48,14 @@ func (e *E) Finish(rule string) {
 	e.R.Set("rule", rule)
 	e.R.Finish()
 }
+
+// LCG is the deterministic pseudo-random sequence of the long-history ("churn") families. The
+// families are not samples that decide anything on their own: they drive ONE instance through
+// tens of thousands of operations so that behaviour keyed to a count of operations (a counter
+// that wraps, periodic maintenance) is reached at all; every step is compared with the model.
+type LCG uint32
+
+func (l *LCG) Next(n int) int {
+	*l = *l*1664525 + 1013904223
+	return int(uint32(*l)>>8) % n
+}
